@@ -92,11 +92,28 @@ func checkTransform(r *ev.Run, nt named, pts []model3d.Coord3D) {
 	scale := func(p model3d.Coord3D) float64 { return nt.tol * (1 + p.Norm() + t.Apply(p).Norm()) }
 	for _, p := range pts {
 		r.Eval(1)
-		if q := inv.Apply(t.Apply(p)); q.Dist(p) > scale(p) {
+		// "identity up to rounding": rounding of the intermediate point is amplified by the local
+		// Lipschitz constant of the second map (power-law pinches are arbitrarily steep near their
+		// centre), so the tolerance is scaled by an estimate of it and hopeless cases are skipped
+		lip := func(f func(model3d.Coord3D) model3d.Coord3D, q model3d.Coord3D) float64 {
+			l := 1.0
+			h := 1e-9 * (1 + q.Norm())
+			for _, d := range []model3d.Coord3D{{X: h}, {Y: h}, {Z: h}} {
+				l = math.Max(l, f(q.Add(d)).Dist(f(q))/h)
+			}
+			return l
+		}
+		mid := t.Apply(p)
+		if l := lip(inv.Apply, mid); l > 1e4 {
+			r.Skipped(1)
+		} else if q := inv.Apply(mid); q.Dist(p) > scale(p)*l {
 			r.Violation("inverse/"+fam(nt.name), fmt.Sprintf("%s: Inverse(Apply(%v)) = %v", nt.name, p, q), c)
 			return
 		}
-		if q := t.Apply(inv.Apply(p)); q.Dist(p) > nt.tol*(1+p.Norm()+inv.Apply(p).Norm()) {
+		mid = inv.Apply(p)
+		if l := lip(t.Apply, mid); l > 1e4 {
+			r.Skipped(1)
+		} else if q := t.Apply(mid); q.Dist(p) > nt.tol*(1+p.Norm()+mid.Norm())*l {
 			r.Violation("inverse/"+fam(nt.name), fmt.Sprintf("%s: Apply(Inverse(%v)) = %v", nt.name, p, q), c)
 			return
 		}
